@@ -55,8 +55,8 @@ PROPS = {
     "C07": dict(gens=["C07", "F07"], quick=6000, thorough=300000),
     "C09": dict(gens=["C09"], quick=4000, thorough=750000),
     "C11": dict(gens=["C11"], quick=7000, thorough=400000),
-    "C12": dict(gens=["C12"], quick=4000, thorough=750000),
-    "C13": dict(gens=["C13"], quick=14000, thorough=1500000),
+    "C12": dict(gens=["C12"], quick=4000, thorough=300000),
+    "C13": dict(gens=["C13"], quick=14000, thorough=600000),
     "C17": dict(gens=["C17"], quick=14000, thorough=1000000, known=["K1"]),
     "C18": dict(gens=["C18"], quick=700, thorough=20000),
     "C19": dict(gens=["C19"], quick=1200, thorough=20000),
@@ -384,11 +384,18 @@ C20_PROFILES_THOROUGH = [
 ]
 
 
-def eval_C20(pid, lines, tier, log):
+# arithmetic properties whose statement includes "panics, never a wrong value": a wrapped result can exist in an
+# optimised build only, so their cases run under the dev and the release build (same machinery as C20)
+DUAL_PROFILE = ("C01", "C02", "C03", "C04", "C05", "C10", "C14", "C16", "C17")
+DUAL_PROFILES = [("dev", "dev", ""), ("release", "release", "")]
+
+
+def eval_C20(pid, lines, tier, log, profs=None):
     """the same cases under every build configuration: outcomes must be identical
     across configurations (the property), each equal to the model under the matching
     profile (correspondence) and accepted by the specification (oracle)"""
-    profs = C20_PROFILES_THOROUGH if tier == "thorough" else C20_PROFILES_QUICK
+    if profs is None:
+        profs = C20_PROFILES_THOROUGH if tier == "thorough" else C20_PROFILES_QUICK
     per = []
     for (cargo_prof, model_pf, feat) in profs:
         with Lock():
@@ -532,7 +539,7 @@ def main():
             import fingerprint
             src_changed = fingerprint.changed_for(pid)
             if src_changed and tier == "quick":
-                log("[%s] source changed since the model was written (%s): extended exploration" % (pid, ", ".join(src_changed)))
+                log("[%s] source items changed since the model was written (%s): extended exploration" % (pid, "; ".join(src_changed)))
             lines = load_corpus(pid) + gen_cases(pid, seed, tier, escalate=bool(src_changed) and tier == "quick")
         configs = ["dev"]
         if lines:
@@ -540,6 +547,8 @@ def main():
                 lines, impl, rows = eval_C18(pid, lines, hbin)
             elif pid == "C20":
                 impl, rows, configs = eval_C20(pid, lines, tier, log)
+            elif pid in DUAL_PROFILE:
+                impl, rows, configs = eval_C20(pid, lines, tier, log, DUAL_PROFILES)
             else:
                 impl, rows = eval_generic(pid, lines, hbin)
         knowns = {k["id"]: k for k in load_known() if k.get("kind") == "known" and pid in k.get("properties", [k.get("property")])}
@@ -574,6 +583,16 @@ def main():
         violations.append((write_replay(pid, "proof", dict(what="proof obligation no longer checks", where=proof["failed"],
                                                            theorems=proof["theorems"], log=proof["detail"][-1500:], consts=proof.get("consts"))),
                            " no-failing-input-found"))
+    if src_changed and not replay and not violations and not n_corr_fail:
+        # the structural half of the tie: the model was written from another text of these items; no input on which
+        # the property fails was found, but the theorems are no longer shown to carry over to this source
+        violations.append((write_replay(pid, "tie", dict(
+            what="the Rust items the model was written from have changed; the correspondence model = implementation is "
+                 "established for the recorded text only (tools/source_fingerprints.json). Extended exploration (%d cases) "
+                 "found no input on which the property fails" % len(lines),
+            changed_items=src_changed, new_items=fingerprint.added_for(pid), theorems=proof["theorems"], seed=seed, tier=tier,
+            to_accept="bring the model in coq/model up to date with the change (or confirm that it needs none), re-run the "
+                      "checks, then python3 tools/fingerprint.py --update")), " no-failing-input-found"))
     if n_corr_fail and not violations:
         info = dict(first_corr)
         info.update(what="correspondence model = implementation no longer holds (%d cases); the specification accepts every implementation outcome explored" % n_corr_fail,
